@@ -442,6 +442,11 @@ func retentionLifeCmd(args []string) int {
 			if err := <-done; err != nil {
 				fail("flush failed: " + err.Error())
 			}
+		case "retaincount":
+			// the file-count policy, called directly on the live log: keep the current file only
+			if _, err := p.eng.GetWAL().ManageRetention(wal.WALRetentionConfig{MaxFileCount: 1}); err != nil {
+				fail("ManageRetention failed: " + err.Error())
+			}
 		case "ack":
 			if received < st.S {
 				got, _ := c.waitFor(st.S, 5*time.Second)
